@@ -13,7 +13,8 @@ deriving Repr, DecidableEq
 
 namespace Pktap
 
-def headerLen : Nat := 108
+/-- `sizeof(pktap_header)` -/
+abbrev headerLen : Nat := 108
 
 /-- `Internals::pdu_from_dlt_flag(int flag, …, rawpdu_on_no_match = true)` -/
 def ofDlt (dlt : Nat) (rest : Bytes) : Inner :=
@@ -25,17 +26,20 @@ def ofDlt (dlt : Nat) (rest : Bytes) : Inner :=
   else if dlt == DLT_PPI then .cls "PPI" rest false
   else .raw rest
 
+/-- `if (header_.next && stream) inner_pdu(pdu_from_dlt_flag(header_.dlt, …))` -/
+def tail (p : Pktap) (c : Cursor) : Out (Pktap × Inner) :=
+  if p.next != 0 && c.toBool then
+    (Cursor.rest "PKTAP::PKTAP inner" c) >>= fun rest => pure (p, ofDlt p.dlt rest)
+  else pure (p, .none)
+
 /-- `PKTAP::PKTAP(const uint8_t*, uint32_t)` -/
 def parse (b : Bytes) : Out (Pktap × Inner) := do
   let c := Cursor.ofBytes b
-  let (h, c) ← c.read headerLen                             -- stream.read(header_)
-  let p : Pktap := ⟨Cursor.leNat (h.take 4), Cursor.leNat ((h.drop 4).take 4), Cursor.leNat ((h.drop 8).take 4)⟩
-  if p.length > b.length || p.length < headerLen then .throw .malformedPacket else
-  let c ← c.skip (p.length - headerLen)
-  if p.next != 0 && c.toBool then
-    let rest ← Cursor.rest "PKTAP::PKTAP inner" c
-    pure (p, ofDlt p.dlt rest)
-  else pure (p, .none)
+  let (h, c) ← c.read 108                                   -- stream.read(header_), sizeof(pktap_header) = 108
+  let length := Cursor.leNat (h.take 4)
+  if length > b.length || length < 108 then .throw .malformedPacket else
+  let c ← c.skip (length - 108)
+  tail ⟨length, Cursor.leNat ((h.drop 4).take 4), Cursor.leNat ((h.drop 8).take 4)⟩ c
 
 def fields (_p : Pktap) : Fields := []
 
